@@ -52,7 +52,8 @@ def gen_table(ctx):
             lit = r.choice([repr(base[i]), "%.8g" % base[i], "%.8e" % base[i], "%.8E" % base[i], ("%.3E" % base[i]).replace("E-0", "E-")])
         lits.append(lit)
         fs = [g.name() for _ in range(r.randint(0, 4))]
-        mod = r.choice([("PHSP", []), ("VSS", []), ("HELAMP", ["1.0", "0.5", "x"]), ("SVS", []), ("VSS_BMIX", ["0.507e12"]), ("BTOXSGAMMA", ["2"])])
+        mod = r.choice([("PHSP", []), ("VSS", []), ("HELAMP", ["1.0", "0.5", "x"]), ("SVS", []), ("VSS_BMIX", ["0.507e12"]), ("BTOXSGAMMA", ["2"]),
+                        ("SVV_HELAMP", ["0.317", "0.0", "0.936", "0", "0.152", "-0.0"]), ("PYTHIA", ["0"])])
         lines.append({"bf": lit, "fs": fs, "photos": r.random() < 0.35, "model": mod[0], "params": list(mod[1])})
     pdg = None
     extra = {}
@@ -63,7 +64,7 @@ def gen_table(ctx):
         for ln in lines:
             if r.random() < 0.5:
                 ln["params"] = [*ln["params"], "dm"]
-        return {"mother": mother, "pdg_name": None, "lines": lines, "define": r.choice(["0.507e12", "0.25", "-1.5", "3"]), "cdecay": cm}
+        return {"mother": mother, "pdg_name": None, "lines": lines, "define": r.choice(["0.507e12", "0.25", "-1.5", "3", "0.0", "0"]), "cdecay": cm}
     if r.random() < 0.25:
         t = names.tables()
         cands = [(pn, en) for pn, en in t["pdg2evt"].items() if en in g.real and pn != en]
